@@ -69,9 +69,17 @@ def gen_cases(ctx, part, consts, label):
 
 def run_replay(ctx, binary, cases, label, timeout=2400):
     results = ctx.path("results-%s.ndjson" % label)
-    ctx.run([binary, "replay", cases, results], timeout=timeout)
+    for attempt in (1, 2):
+        ctx.run([binary, "replay", cases, results], timeout=timeout)
+        recs = list(vlib.iter_ndjson(results))
+        # the driver's watchdog (300 s for one case) turns a hang of the library into a record; on a
+        # loaded machine a stall can trip it: a genuine hang is deterministic and trips it again
+        if attempt == 1 and any(r["kind"] == "summary" and r.get("aborted") for r in recs):
+            ctx.log("replay %s: watchdog fired, running once more" % label)
+            continue
+        break
     summary = None
-    for r in vlib.iter_ndjson(results):
+    for r in recs:
         if r["kind"] == "summary":
             summary = r
         elif r["kind"] == "mismatch":
